@@ -214,6 +214,8 @@ package terminal
 //@   ensures  [total] (n == nil) != (err == nil) && len(data.ElemsOf(cp)) == 0
 //@   ensures  [node] n != nil ==> n.Pos() == pos && n.ReaderPos() >= pos + 2
 //@   ensures  [fail] err != nil ==> err.Pos() >= pos
+//@   logs strconv.UnquoteChar
+//@   ensures  [value;C08] n != nil ==> ncalls() == 1 && callres[error](1, 3) == nil && callres[string](1, 2) == "" && typeis[*CharNode](n) && n.(*CharNode).value == callres[rune](1, 0)
 //@   ghost_return when err != nil && err.Pos() > parsley.GhostMaxFail :: parsley.GhostMaxFail = err.Pos()
 
 //@ closure Regexp$1(ctx *parsley.Context, lrc data.IntMap, pos parsley.Pos) (n parsley.Node, cp data.IntSet, err parsley.Error)
